@@ -1,7 +1,7 @@
 (* C20, cmdline part: frg::parse_arguments is memory-safe and total on arbitrary input
    (DESIGN section 4, C20), for EVERY byte list as command line and EVERY option table. *)
 From Coq Require Import List NArith Bool.
-From FV Require Import Str.StrModel Str.StrProofs Cmdline.CmdlineModel Cmdline.CmdlineProofs.
+From FV Require Import Str.StrModel Str.StrProofs Str.StrNumProofs Cmdline.CmdlineModel Cmdline.CmdlineProofs.
 Import ListNotations.
 Local Open Scope N_scope.
 
@@ -44,6 +44,15 @@ Theorem C20_cmdline_refuted_before_fix :
 Proof. exact parse_wrapping_check_refuted. Qed.
 Print Assumptions C20_cmdline_refuted_before_fix.
 
+(* composition with the to_number parser (as_number<T> options): whatever view a callback receives during a run,
+   to_number<T> on it ends Ok (value or null_opt) and reads only inside buffers *)
+Theorem C20_cmdline_as_number_safe : forall (tbl : list (list byte * bool)) (cl : list byte) (null_cl : bool) (t : ity),
+  N.of_nat (length cl) < W64 ->
+  forall idx v, In (IApply idx v) (snd (run_cmdline tbl cl null_cl)) ->
+  exists r reads, to_number (run_mem tbl cl) t v = (Ok r, reads) /\ Forall (in_mem (run_mem tbl cl)) reads.
+Proof. exact run_apply_view_to_number. Qed.
+Print Assumptions C20_cmdline_as_number_safe.
+
 Example C20_cmdline_ex1 :   (* foo bar=x "baz=a b" z   with options foo, bar=, baz= : three callbacks, 2nd and 3rd inside *)
   let cl := [102;111;111;32;98;97;114;61;120;32;34;98;97;122;61;97;32;98;34;32;122] in
   let tbl := [([102;111;111], false); ([98;97;114], true); ([98;97;122], true)] in
@@ -51,3 +60,8 @@ Example C20_cmdline_ex1 :   (* foo bar=x "baz=a b" z   with options foo, bar=, b
   filter (fun it => match it with IApply _ _ => true | _ => false end) (snd (run_cmdline tbl cl false))
     = [IApply 0 VNull; IApply 1 (V 0 8 1); IApply 2 (V 0 15 3)].
 Proof. vm_compute. split; reflexivity. Qed.
+
+Example C20_cmdline_ex2 :   (* n=12 with an as_number<unsigned char> option: the callback view is (0, 2, 2), the target becomes 12 *)
+  snd (run_cmdline_targets [([110], true)] [KNum (mkT false 8)] [110; 61; 49; 50] false) = [TNum 12] /\
+  In (IApply 0 (V 0 2 2)) (snd (run_cmdline [([110], true)] [110; 61; 49; 50] false)).
+Proof. split; [vm_compute; reflexivity|]. vm_compute. intuition. Qed.
